@@ -46,7 +46,9 @@ SPEC = {
                  "C20_reregistration_branch_dead", "C20_cancel_only_by_shutdown",
                  "C20_ext_refines", "C20_ext_statement", "C20_stopped_ctx_after_flag", "C20_stopped_ctx_before_cancel",
                  "C20_stopped_ctx_before_return", "C20_stopped_monotone", "C20_stopped_observations",
-                 "C20_wrappers_forward_all_arguments", "C20_driver_step_sound", "C20_shutdown_terminates"],
+                 "C20_wrappers_forward_all_arguments", "C20_driver_step_sound", "C20_shutdown_terminates",
+                 "C20_handler_shutdownandwait_selfwait_witness"] + ["C20_decisions_" + m for m in (
+                     "GetRunningBackgroundWorkers", "getWorkersAndShutdownOrder", "runBackgroundWorker", "BackgroundWorker", "DebugLogger", "Start", "Run", "shutdown", "stopWorkers", "cleanupWorker", "removeWorkerFromShutdownOrder", "clear", "Shutdown", "ShutdownAndWait", "IsRunning", "IsStopped", "ContextStopped")],
     "trusted_base": [
         "hand-written protocol model Hive/Model/Daemon.lean of app/daemon/daemon.go (critical sections of d.lock atomic; "
         "lock-free reads as separate steps), tied by (a) differential execution of sequential histories against the model "
@@ -62,8 +64,11 @@ SPEC = {
         "workers map + shutdownOrderWorker slice are one list of instances (both are always updated in the same critical section)",
         "GetRunningBackgroundWorkers = runningList (reverse of the flagged part of the registry); the variadic order = effOrder "
         "(first value, 0 when none); the package-level wrappers are driven as the same api on the default daemon",
-        "NOT modelled: the logger, stoppedCtx (ContextStopped is compared with the stopped flag at quiescence), "
-        "WaitGroup misuse panics (Add concurrent with Wait), handlers that call back into the daemon",
+        "extension layer Hive/Model/DaemonX.lean on top of the same step function: stoppedCtx (cancelled by the stopOnce body between "
+        "the store of the stopped flag and the IsRunning read), pollers of ContextStopped(), worker goroutines whose handlers call "
+        "back into the daemon (BackgroundWorker / Start / IsStopped / Shutdown(AndWait) / Run from inside a handler); it refines the "
+        "base model (C20_ext_refines)",
+        "NOT modelled: the logger, WaitGroup misuse panics (Add concurrent with Wait)",
     ],
     "manifest": {
         "text": "Lean 4 invariant proofs over an interleaving model of app/daemon (arbitrary thread pool: any number of "
@@ -78,10 +83,18 @@ SPEC = {
                 "(returned before later workers, rare sync.WaitGroup misuse panic; C20_old_run_wait_witness over the old model "
                 "variant). Tie: ~6k (quick) / ~120k (thorough) scripted and "
                 "random life-cycle histories on the real daemon: sequential ones are compared answer by answer with the Lean model, "
-                "every event log is judged by the same Lean trace predicates the theorems are about and by an independent Go oracle.",
+                "every event log is judged by the same Lean trace predicates the theorems are about and by an independent Go oracle. "
+                "Extension layer (stopped context, handlers that call back into the daemon): C20_ext_refines / C20_ext_statement (the six "
+                "clauses also hold when handlers register / start / shut down from inside), C20_stopped_ctx_after_flag / _before_cancel / "
+                "_before_return / _monotone / _observations (ContextStopped is cancelled after the flag is set and before any worker "
+                "context; observed on the real daemon by ~43k observations per quick run, oracle `ctx`), C20_shutdown_terminates "
+                "(termination measure once the handlers returned), C20_wrappers_forward_all_arguments (regenerated package-level "
+                "wrappers), C20_driver_step_sound (the driver's registration step is a successor of the model).",
         "note": "Trusted: Lean kernel; the hand-written model (tie = differential + trace-predicate validation, sampled schedules); "
-                "the harness's event stamping; hang detection by generous timeouts.",
+                "the harness's event stamping; hang detection by generous timeouts; harness/c20/wrapgen and harness/tools/extract-sync (go/ast).",
         "technique": "Lean 4 inductive invariants over an interleaving semantics + trace-predicate conformance + differential execution",
     },
-    "assumptions": ["worker handlers do not call back into the daemon", "one daemon instance per case; names are compared as integers"],
+    "assumptions": ["a handler that blocks for ever (also: one that calls ShutdownAndWait or Run from inside, which waits for itself) is outside "
+                    "the liveness theorems; the safety theorems cover it",
+                    "one daemon instance per case; names are compared as integers"],
 }
